@@ -312,6 +312,48 @@ func (l lyingGoSigner) Sign(rnd io.Reader, data []byte) (*ssh.Signature, error) 
 	return l.Signer.Sign(rnd, d)
 }
 
+// guessSetup prepares a valid exchange in which refpeer guesses (first_kex_packet_follows, RFC 4253 7.1).
+// mode 0: no guess; 1: guess right (both sides prefer the same kex and host key algorithm);
+// 2: guess wrong because the Go side prefers another kex; 3: wrong because it prefers another host key
+// algorithm.  In modes 2 and 3 the Go side lists a method refpeer does not offer first, so the
+// negotiated tuple stays (kex, algo) while the guess is wrong and one packet has to be skipped.
+func guessOther(kex, algo string) (otherKex, otherAlgo string) {
+	otherKex, otherAlgo = "curve25519-sha256", "ssh-ed25519"
+	if strings.HasPrefix(kex, "curve25519") {
+		otherKex = "ecdh-sha2-nistp256"
+	}
+	if n, _, _ := hostAlgoKeyName(algo); n == "ed25519" {
+		otherAlgo = "ecdsa-sha2-nistp256"
+	}
+	return
+}
+
+var guessNames = []string{"no-guess", "guess-right", "guess-wrong-kex", "guess-wrong-hostkey"}
+
+func applyGuessClient(c *ssh.ClientConfig, mode int, kex, algo string) {
+	ok, oa := guessOther(kex, algo)
+	switch mode {
+	case 2:
+		c.KeyExchanges = []string{ok, kex}
+	case 3:
+		c.HostKeyAlgorithms = []string{oa, algo}
+	}
+}
+
+func applyGuessServer(kex, algo string, mode int, user *keyMat) *ssh.ServerConfig {
+	ok, oa := guessOther(kex, algo)
+	if mode != 3 {
+		c := goServerCfg(kex, goHostSigner(algo, "pipe"), user)
+		if mode == 2 {
+			c.KeyExchanges = []string{ok, kex}
+		}
+		return c
+	}
+	c := goServerCfg(kex, goHostSigner(oa, "pipe"), user) // the server's first host key algorithm is another one
+	c.AddHostKey(goHostSigner(algo, "pipe"))
+	return c
+}
+
 func c29ValidCases() []c29Case {
 	var out []c29Case
 	initKeys()
@@ -326,15 +368,25 @@ func c29ValidCases() []c29Case {
 			if cert {
 				algo += certSuffix
 			}
+			gmode := (i*7 + len(kex)) % 4 // refpeer guesses in three of four exchanges
+			gname := guessNames[gmode]
+			withGuess := func(cfg refpeer.Config) refpeer.Config {
+				if gmode != 0 {
+					cfg.Guess = &refpeer.Guess{}
+				}
+				return cfg
+			}
 			// Go client -> refpeer server
-			out = append(out, c29Case{name: "valid|goclient|" + kex + "|" + algo, classes: []string{"valid:go-client", "kex=" + kex, "host=" + algo}, nontriv: true, run: func() (string, string) {
+			out = append(out, c29Case{name: "valid|goclient|" + kex + "|" + algo + "|" + gname, classes: []string{"valid:go-client", "valid:" + gname, "kex=" + kex, "host=" + algo}, nontriv: true, run: func() (string, string) {
 				var gsid, rsid []byte
-				lo := runLink(goClientEcho(goClientCfg(kex, algo, user), 3000, &gsid), refServerEcho(&rsid, [][]byte{user.hk.Blob()}), refCfg(kex, algo, refHostKey(algo, "pipe")))
+				ccfg := goClientCfg(kex, algo, user)
+				applyGuessClient(ccfg, gmode, kex, algo)
+				lo := runLink(goClientEcho(ccfg, 3000, &gsid), refServerEcho(&rsid, [][]byte{user.hk.Blob()}), withGuess(refCfg(kex, algo, refHostKey(algo, "pipe"))))
 				if lo.stalled {
 					return "", fmt.Sprintf("stalled: go=%v ref=%v", lo.goErr, lo.refErr)
 				}
 				if lo.goErr != nil || lo.refErr != nil {
-					return fmt.Sprintf("valid exchange failed: Go client: %v; refpeer server (independent transcript, keys derived from its own H and K): %v", lo.goErr, lo.refErr), ""
+					return fmt.Sprintf("valid exchange (%s, %s, refpeer: %s) failed: Go client: %v; refpeer server (independent transcript, keys derived from its own H and K): %v", kex, algo, gname, lo.goErr, lo.refErr), ""
 				}
 				if !bytes.Equal(gsid, rsid) || len(gsid) == 0 {
 					return fmt.Sprintf("exchange hash differs: Go client session id %x, refpeer's independently computed H %x", gsid, rsid), ""
@@ -342,14 +394,14 @@ func c29ValidCases() []c29Case {
 				return "", ""
 			}})
 			// refpeer client -> Go server
-			out = append(out, c29Case{name: "valid|goserver|" + kex + "|" + algo, classes: []string{"valid:go-server", "kex=" + kex, "host=" + algo}, nontriv: true, run: func() (string, string) {
+			out = append(out, c29Case{name: "valid|goserver|" + kex + "|" + algo + "|" + gname, classes: []string{"valid:go-server", "valid:" + gname, "kex=" + kex, "host=" + algo}, nontriv: true, run: func() (string, string) {
 				var gsid, rsid []byte
-				lo := runLink(goServerEcho(goServerCfg(kex, goHostSigner(algo, "pipe"), user), &gsid), refClientExec(3000, user.hk, &rsid), refCfg(kex, algo, nil))
+				lo := runLink(goServerEcho(applyGuessServer(kex, algo, gmode, user), &gsid), refClientExec(3000, user.hk, &rsid), withGuess(refCfg(kex, algo, nil)))
 				if lo.stalled {
 					return "", fmt.Sprintf("stalled: go=%v ref=%v", lo.goErr, lo.refErr)
 				}
 				if lo.refErr != nil {
-					return fmt.Sprintf("valid exchange failed: refpeer client (verifies the signature over its own H): %v; Go server: %v", lo.refErr, lo.goErr), ""
+					return fmt.Sprintf("valid exchange (%s, %s, refpeer: %s) failed: refpeer client (verifies the signature over its own H): %v; Go server: %v", kex, algo, gname, lo.refErr, lo.goErr), ""
 				}
 				if !bytes.Equal(gsid, rsid) || len(gsid) == 0 {
 					return fmt.Sprintf("exchange hash differs: Go server session id %x, refpeer's independently computed H %x", gsid, rsid), ""
